@@ -75,21 +75,6 @@ def mle_case(draw, n_max=6, with_container=False, with_competitor=False, with_ma
 PY_SWEEPS = 3000      # explicit max_iter for direct calls of the pure-Python implementation (documented parameter)
 
 
-def affordable(B):
-    """Budget guard only (never a verdict) for builders.mle, whose cap of 1e5 pure-Python sweeps (10-30 s) cannot be
-    set by the caller: does the same pure-Python iteration stop within PY_SWEEPS sweeps?  Any failure other than
-    non-convergence counts as 'affordable', so that the real call reports it."""
-    try:
-        with warnings.catch_warnings(record=True) as w:
-            warnings.simplefilter("always")
-            builders._prinz_mle_py(np.array(B, dtype=np.float64), max_iter=PY_SWEEPS)
-        return not any("converge" in str(x.message).lower() for x in w)
-    except TypeError:
-        return False       # unrepaired tree: the non-convergence warning itself raises TypeError
-    except Exception:
-        return True
-
-
 def run_impl(which, B, **kw):
     """-> (T, pi, warned).  Any exception propagates (= violation of 'terminates with a model or a warning')."""
     B = np.ascontiguousarray(B, dtype=np.float64)
@@ -160,7 +145,14 @@ def run_terminates_builder(case):
     integer and real input - never an internal AssertionError / TypeError / ValueError."""
     A = R.case_matrix(case["mat"])
     B = A.astype(float)
-    if not affordable(B):
+    # reference run of the wrapped implementation; it doubles as the budget guard
+    try:
+        Tpy, _, py_warned = run_impl("py", B, max_iter=PY_SWEEPS)
+    except TypeError:
+        Tpy, py_warned = None, True       # unrepaired tree: non-convergence raises TypeError
+    except Exception:
+        Tpy, py_warned = None, False      # let the public call below report the failure
+    if py_warned:
         raise Skip("builders.mle would need up to 1e5 pure-Python sweeps")
     x = R.to_container(A, case["container"])
     with warnings.catch_warnings(record=True) as w:
@@ -178,7 +170,7 @@ def run_terminates_builder(case):
         require(np.all(np.isfinite(T)) and np.all(T >= 0) and np.max(np.abs(T.sum(axis=1) - 1)) <= TOL_ROW,
                 "builders.mle: T is not row-stochastic", T=T.tolist())
     # the public builder must give the numbers of the implementation it wraps, whatever the container
-    Tpy, _, _ = run_impl("py", B, max_iter=PY_SWEEPS)
+    require(Tpy is not None, "_prinz_mle_py failed on the dense counts although builders.mle returned")
     require(np.max(np.abs(T - Tpy)) <= 1e-12, "builders.mle(container) differs from the estimator on the dense counts",
             got=T.tolist(), want=Tpy.tolist())
     warned = any("converge" in str(x.message).lower() for x in w)
